@@ -1839,7 +1839,7 @@ class Epoch(object):
         # Compute fractional Julian Day for leap seconds and terrestrial time
         # We need current epoch without hours, minutes and seconds
         year, month, day = self.get_date()
-        e = Epoch(year, month, day)
+        e = Epoch(year, month, int(day))
         frac = (10.0 + 32.184 + Epoch.leap_seconds(year, month)) / 86400.0
         cjd = e.jde() - 2451545.0 + frac
         # Compute mean solar noon
